@@ -290,6 +290,8 @@ def gen(rng, idx, tier):
         delivery = "ufolibs"
     return {"stratum": stratum, "fmt": fmt, "lib": rng.choice(["defcon", "ufoLib2"]),
             "skip": skip, "delivery": delivery, "only_skipped_categorised": only_skipped_categorised,
+            "ufo_lib_decoy": ([rng.choice([n for n in names if n not in skip] or names)]
+                              if delivery == "dslib" and rng.random() < 0.5 else None),
             "ufolibs_cut": rng.randint(0, max(0, len(skip) - 1)),
             "decoy": rng.sample(names, min(len(names) - 1, 1)) if delivery == "both" else [],
             "ufo": {"glyphs": glyphs, "kerning": kerning, "groups": groups, "lib": lib,
@@ -345,6 +347,12 @@ def compile_pair(case, with_skip):
         tt = ufo2ft.compileOTF(font, **kw) if case["fmt"] == "otf" else ufo2ft.compileTTF(font, **kw)
         fonts = [tt]
     else:
+        if case.get("ufo_lib_decoy") and case["delivery"] == "dslib":
+            # on the designspace paths only the designspace lib counts: a list in a master's
+            # own lib is ignored, with and without a designspace list
+            spec["lib"]["public.skipExportGlyphs"] = list(case["ufo_lib_decoy"])
+            bump_ = compile_pair.__dict__.setdefault("decoys", [0])
+            bump_[0] += 1
         ds = {"axes": [{"name": "Weight", "tag": "wght", "min": 400, "default": 400, "max": 700}],
               "ufos": [spec, second_master(spec)],
               "sources": [{"ufo": 0, "location": {"Weight": 400}, "name": "m0"},
@@ -680,6 +688,8 @@ def run(case):
     bump("ttf_cases" if case["fmt"] == "ttf" else "otf_cases")
     if case["delivery"] == "both":
         bump("arg_overrides_lib")
+    if case.get("ufo_lib_decoy") and case["delivery"] == "dslib":
+        bump("designspace_paths_with_a_skip_list_in_a_master_lib_only")
     if case.get("only_skipped_categorised"):
         bump("categories_mention_only_skipped_glyphs")
     if case["delivery"] == "ufolibs":
